@@ -2,10 +2,12 @@
 C02, the wedge: a flush of a core that owes no ACK, has no probe pending, believes the peer's window
 open, cannot admit anything and holds only segments flagged `acked` writes nothing and changes
 nothing that matters (`flush_idle`).  A system state in which both cores are like that and both links
-are empty is stuck for ever (`Stuck`, `stuck_run`) — although A's send buffer is not empty.  Such a
+are empty is stuck for ever (`Stuck`, `stuck_run`; over `Old.step`, the system with the PRE-REPAIR
+`Input` of Model/SysOld.lean — the events other than the two deliveries are those of `Sys.step`) — although A's send buffer is not empty.  Such a
 state is produced by a finite fault history (`wedgeState`): one reordered datagram and one lost one.
 -/
 import KcpVerif.Lemmas.SysProgress2
+import KcpVerif.Model.SysOld
 
 namespace KcpVerif.SysC
 open KcpVerif KcpVerif.Gen KcpVerif.Kcp KcpVerif.Live KcpVerif.Wire KcpVerif.SysW KcpVerif.Sys
@@ -84,11 +86,11 @@ structure Stuck (s : State) : Prop where
   ac : itimediff s.A.snd_nxt (s.A.snd_una + effWnd s.A) ≥ 0   -- A's admission is closed, queue or not
 
 theorem stuck_step (s : State) (h : Stuck s) (ev : Ev) :
-    Stuck (Sys.step s ev) ∧ (Sys.step s ev).A.snd_buf = s.A.snd_buf ∧ (Sys.step s ev).got = s.got ∧
-    (Sys.step s ev).A.snd_nxt = s.A.snd_nxt := by
+    Stuck (Old.step s ev) ∧ (Old.step s ev).A.snd_buf = s.A.snd_buf ∧ (Old.step s ev).got = s.got ∧
+    (Old.step s ev).A.snd_nxt = s.A.snd_nxt := by
   cases ev with
   | tick =>
-    rw [show Sys.step s .tick = (if quiet s then { s with now := s.now + 1 } else s) from rfl]
+    rw [show Old.step s .tick = (if quiet s then { s with now := s.now + 1 } else s) from rfl]
     split
     · exact ⟨⟨h.ab, h.ba, h.a, h.b, h.bq, h.ac⟩, rfl, rfl, rfl⟩
     · exact ⟨h, rfl, rfl, rfl⟩
@@ -96,7 +98,7 @@ theorem stuck_step (s : State) (h : Stuck s) (ev : Ev) :
     have hq := Frame.send_k s.A b
     have e : ∀ (P : Kcp → Prop), P { s.A with snd_queue := (s.A.send b).k.snd_queue } → P (s.A.send b).k := by
       intro P hp; rw [hq]; exact hp
-    rw [show Sys.step s (.send b) = { s with A := (s.A.send b).k, panic := s.panic || (s.A.send b).panic } from rfl]
+    rw [show Old.step s (.send b) = { s with A := (s.A.send b).k, panic := s.panic || (s.A.send b).panic } from rfl]
     refine ⟨⟨h.ab, h.ba, ?_, h.b, h.bq, ?_⟩, ?_, rfl, ?_⟩
     · exact e Idle ⟨h.a.ack, h.a.prb, h.a.rmt, h.a.ncw, Or.inl h.ac, h.a.akd⟩
     · exact e (fun k => itimediff k.snd_nxt (k.snd_una + effWnd k) ≥ 0) h.ac
@@ -106,25 +108,25 @@ theorem stuck_step (s : State) (h : Stuck s) (ev : Ev) :
     have hp : s.B.peekSize = -1 := by unfold peekSize; rw [h.bq]
     have hn : (s.B.recv s.B.peekSize.toNat).n < 0 := by
       unfold recv; rw [hp]; simp
-    rw [show Sys.step s .read = (if (s.B.recv s.B.peekSize.toNat).n < 0 then s
+    rw [show Old.step s .read = (if (s.B.recv s.B.peekSize.toNat).n < 0 then s
       else { s with B := (s.B.recv s.B.peekSize.toNat).k, got := s.got ++ (s.B.recv s.B.peekSize.toNat).data }) from rfl]
     rw [if_pos hn]
     exact ⟨h, rfl, rfl, rfl⟩
   | dlvA =>
-    have : Sys.step s .dlvA = s := by simp only [Sys.step, h.ba]
+    have : Old.step s .dlvA = s := by simp only [Old.step, h.ba]
     rw [this]; exact ⟨h, rfl, rfl, rfl⟩
   | dlvB =>
-    have : Sys.step s .dlvB = s := by simp only [Sys.step, h.ab]
+    have : Old.step s .dlvB = s := by simp only [Old.step, h.ab]
     rw [this]; exact ⟨h, rfl, rfl, rfl⟩
   | flushA =>
     obtain ⟨o1, o2, o3⟩ := flush_idle s.A true (clk s.now) h.a
-    rw [show Sys.step s .flushA = afterFlushA s (s.now + (s.A.flush true (clk s.now)).interval.toNat) from rfl]
+    rw [show Old.step s .flushA = afterFlushA s (s.now + (s.A.flush true (clk s.now)).interval.toNat) from rfl]
     unfold afterFlushA
     rw [o1, o3]
     exact ⟨⟨by show s.ab ++ stamp _ [] = []; rw [h.ab]; rfl, h.ba, h.a.keep, h.b, h.bq, h.ac⟩, rfl, rfl, rfl⟩
   | flushB =>
     obtain ⟨o1, o2, o3⟩ := flush_idle s.B true (clk s.now) h.b
-    rw [show Sys.step s .flushB = afterFlushB s true (s.now + (s.B.flush true (clk s.now)).interval.toNat) from rfl]
+    rw [show Old.step s .flushB = afterFlushB s true (s.now + (s.B.flush true (clk s.now)).interval.toNat) from rfl]
     unfold afterFlushB
     rw [o1, o3]
     exact ⟨⟨h.ab, by show s.ba ++ stamp _ [] = []; rw [h.ba]; rfl, h.a, h.b.keep, h.bq, h.ac⟩, rfl, rfl, rfl⟩
@@ -132,8 +134,8 @@ theorem stuck_step (s : State) (h : Stuck s) (ev : Ev) :
 /-- **a stuck state is stuck for ever**, whatever the schedule and whatever the writer writes: A's send
 buffer never changes, nothing is admitted, the reader gets nothing more -/
 theorem stuck_run : ∀ (evs : List Ev) (s : State), Stuck s →
-    Stuck (Sys.run s evs) ∧ (Sys.run s evs).A.snd_buf = s.A.snd_buf ∧ (Sys.run s evs).got = s.got ∧
-    (Sys.run s evs).A.snd_nxt = s.A.snd_nxt := by
+    Stuck (Old.run s evs) ∧ (Old.run s evs).A.snd_buf = s.A.snd_buf ∧ (Old.run s evs).got = s.got ∧
+    (Old.run s evs).A.snd_nxt = s.A.snd_nxt := by
   intro evs
   induction evs with
   | nil => intro s h; exact ⟨h, rfl, rfl, rfl⟩
@@ -171,21 +173,24 @@ theorem flush_idle_interval (k : Kcp) (now : U32) (h : Idle k) : (flush k true n
   show (flX k true now).next = _
   rw [e, hb, fold_acked _ _ _ _ _ _ _ h.akd, h4]
 
+theorem old_run_append (s : State) (a b : List Ev) : Old.run s (a ++ b) = Old.run (Old.run s a) b := by
+  unfold Old.run; rw [List.foldl_append]
+
 /-- one millisecond of a stuck system: both flushes (they are due at some point), then the tick -/
 def stuckRound : List Ev := [.flushA, .flushB, .tick]
 
 theorem stuck_round (s : State) (h : Stuck s) (ha : 0 < s.A.interval.toNat) (hb : 0 < s.B.interval.toNat) :
-    (Sys.run s stuckRound).now = s.now + 1 ∧ (Sys.run s stuckRound).A.interval = s.A.interval ∧
-    (Sys.run s stuckRound).B.interval = s.B.interval := by
+    (Old.run s stuckRound).now = s.now + 1 ∧ (Old.run s stuckRound).A.interval = s.A.interval ∧
+    (Old.run s stuckRound).B.interval = s.B.interval := by
   obtain ⟨a1, a2, a3⟩ := flush_idle s.A true (clk s.now) h.a
   have a4 := flush_idle_interval s.A (clk s.now) h.a
   obtain ⟨b1, b2, b3⟩ := flush_idle s.B true (clk s.now) h.b
   have b4 := flush_idle_interval s.B (clk s.now) h.b
-  have e1 : Sys.step s .flushA = afterFlushA s (s.now + (s.A.flush true (clk s.now)).interval.toNat) := rfl
-  have hq : quiet (Sys.step (Sys.step s .flushA) .flushB) = true := by
+  have e1 : Old.step s .flushA = afterFlushA s (s.now + (s.A.flush true (clk s.now)).interval.toNat) := rfl
+  have hq : quiet (Old.step (Old.step s .flushA) .flushB) = true := by
     unfold quiet
     simp only [Bool.and_eq_true, List.all_eq_true, decide_eq_true_eq]
-    have hp : (Sys.step (Sys.step s .flushA) .flushB).B.peekSize = -1 := by
+    have hp : (Old.step (Old.step s .flushA) .flushB).B.peekSize = -1 := by
       show ((s.B.flush true (clk s.now)).k).peekSize = -1
       rw [b3]; unfold peekSize; show (match s.B.rcv_queue with | [] => (-1 : Int) | _ :: _ => _) = -1
       rw [h.bq]
@@ -198,10 +203,10 @@ theorem stuck_round (s : State) (h : Stuck s) (ha : 0 < s.A.interval.toNat) (hb 
       rw [a4]; omega
     · show s.now < s.now + (s.B.flush true (clk s.now)).interval.toNat
       rw [b4]; omega
-  have e3 : Sys.run s stuckRound =
-      { Sys.step (Sys.step s .flushA) .flushB with now := (Sys.step (Sys.step s .flushA) .flushB).now + 1 } := by
-    show Sys.step (Sys.step (Sys.step s .flushA) .flushB) .tick = _
-    show (if quiet (Sys.step (Sys.step s .flushA) .flushB) then _ else _) = _
+  have e3 : Old.run s stuckRound =
+      { Old.step (Old.step s .flushA) .flushB with now := (Old.step (Old.step s .flushA) .flushB).now + 1 } := by
+    show Old.step (Old.step (Old.step s .flushA) .flushB) .tick = _
+    show (if quiet (Old.step (Old.step s .flushA) .flushB) then _ else _) = _
     rw [if_pos hq]
   rw [e3]
   refine ⟨rfl, ?_, ?_⟩
@@ -228,14 +233,14 @@ theorem stuckRounds_nosend : ∀ n, ∀ ev ∈ stuckRounds n, ∀ b, ev ≠ .sen
     · exact ih ev h b
 
 theorem stuck_rounds_now : ∀ (n : Nat) (s : State), Stuck s → 0 < s.A.interval.toNat → 0 < s.B.interval.toNat →
-    (Sys.run s (stuckRounds n)).now = s.now + n := by
+    (Old.run s (stuckRounds n)).now = s.now + n := by
   intro n
   induction n with
   | zero => intro s _ _ _; rfl
   | succ m ih =>
     intro s h ha hb
     unfold stuckRounds
-    rw [run_append]
+    rw [old_run_append]
     obtain ⟨r1, r2, r3⟩ := stuck_round s h ha hb
     rw [ih _ (stuck_run stuckRound s h).1 (by rw [r2]; exact ha) (by rw [r3]; exact hb), r1]
     omega
@@ -250,14 +255,14 @@ def wedgeA : Kcp := Kcp.noDelay (Kcp.new 1) 1 10 2 1
 def wedgeB : Kcp := Kcp.wndSize (Kcp.noDelay (Kcp.new 1) 1 10 2 1) 32 1
 
 /-- A sends segment 0; B takes it, the reader reads it, B flushes `X0 = [ACK 0, una 1, wnd 1]` -/
-def wedge1 : State := Sys.run (Sys.init wedgeA wedgeB 0 1000) [.send [0], .flushA, .dlvB, .read, .flushB]
+def wedge1 : State := Old.run (Sys.init wedgeA wedgeB 0 1000) [.send [0], .flushA, .dlvB, .read, .flushB]
 /-- `X0` is held back by the network.  A sends segments 1 and 2 in one datagram; B queues 1 (the queue
 is full now) and keeps 2 in the reorder buffer, acknowledged but not delivered:
 `X1 = [ACK 2, una 2, wnd 0]`; A inputs `X1`: 0 and 1 removed, 2 FLAGGED, `rmt_wnd = 0` -/
-def wedge2 : State := Sys.run { wedge1 with ba := [] } [.send [1], .send [2], .flushA, .dlvB, .flushB, .dlvA]
+def wedge2 : State := Old.run { wedge1 with ba := [] } [.send [1], .send [2], .flushA, .dlvB, .flushB, .dlvA]
 /-- the stale `X0` arrives now (`rmt_wnd = 1` again: the zero-window probe is disarmed); the reader reads
 1 and 2; B flushes the window update `[WINS, una 3]` -/
-def wedge3 : State := Sys.run { wedge2 with ba := wedge1.ba } [.dlvA, .read, .read, .flushB]
+def wedge3 : State := Old.run { wedge2 with ba := wedge1.ba } [.dlvA, .read, .read, .flushB]
 /-- the window update is lost — the last fault -/
 def wedgeState : State := { wedge3 with ba := [] }
 
